@@ -243,6 +243,17 @@ func c09Regress(c *hx.Ctx) []*scenario {
 			&scenario{name: fmt.Sprintf("regress/D8-dial-c%d", ci), failAt: map[string]int{"dial": 1}, steps: []step{sNew(cfg), sConnect(1, cfg), sClose(2), sConnect(3, cfg), sConnack(false, 0), sWaitFut(3)}},
 		)
 	}
+	// D13b: clean session: the teardown's Session.Reset restarts the id counter while a Publish is paused before
+	// NextID; released between Reset and futureStore.Clear its id collides with the pending future of call 2
+	for _, asyncOk := range []bool{true, false} {
+		out = append(out, &scenario{name: "regress/D13b-reset-collision-a" + hx.B01(asyncOk), asyncOk: asyncOk,
+			gates: []gateSpec{{kind: "nextid", k: 2, name: "g"}, {kind: "reset", k: 2, post: true, name: "r"}},
+			steps: cat(opening(cfgDefault, 1, false), []step{sPub(2, 1), sAsync(sPub(3, 1)), sWaitGate("g"), sDrop(), sWaitGate("r"),
+				sRelease("g"), sWaitRet(3), sRelease("r"), sWaitFut(2)})})
+	}
+	// a failing DeletePacket(Outgoing) while an acknowledgement is processed, then the broker goes away
+	out = append(out, &scenario{name: "regress/ack-delete-fails-then-drop", failAt: map[string]int{"delete": 1},
+		steps: cat(opening(cfgPersist, 1, false), []step{sPub(2, 1), sB(&packet.Puback{ID: 1}), sIdle(), sPub(3, 1), sDrop(), sIdle()})})
 	out = append(out, &scenario{name: "regress/D8-reset", failAt: map[string]int{"reset": 1}, steps: []step{sNew(cfgDefault), sConnect(1, cfgDefault), sClose(2)}})
 	return out
 }
